@@ -50,6 +50,15 @@ def setAttr (m : MeshVal α) (k : AttrKey) (data : List α) : MeshVal α :=
       else if m.hasAttr k then m.attrs.map (fun kd => if kd.1 == k then (k, data) else kd)
       else m.attrs ++ [(k, data)] }
 
+/-- `ClearAttributeData` (mesh.go:1196): all four maps dropped, indices kept. A caller-checked builder: the
+    result is well-formed only when there is no index (theorem `clearAttrs_wf`). -/
+def clearAttrs (m : MeshVal α) : MeshVal α := { m with attrs := [] }
+
+/-- `SetFloatNData(data)` (mesh.go:1051, 1090, 1145, 1184): the whole map of width `w` is replaced by the
+    caller's map (nothing is checked or stripped). Caller-checked builder: see `setData_wf`. -/
+def setData (m : MeshVal α) (w : Nat) (new : Attrs α) : MeshVal α :=
+  { m with attrs := (m.attrs.filter fun kd => kd.1.width != w) ++ new }
+
 /-- `ModifyFloatNAttribute` and every per-element transform: requires the attribute, replaces it by `f data`. -/
 def modifyAttr (m : MeshVal α) (k : AttrKey) (f : List α → List α) : Option (MeshVal α) :=
   match m.attr? k with
